@@ -330,7 +330,7 @@ const DEFECTS: [(&str, &str); 14] = [
     ("signature", "SignatureDoesNotMatch"),
 ];
 
-fn build_defective(carrier: &Carrier, mask: u32, rng: &mut Rng) -> (Case, Option<&'static str>) {
+fn build_defective(carrier: &Carrier, mask: u32, rng: &mut Rng) -> (Case, Option<&'static str>, Option<usize>) {
     let t0: i128 = 1_440_938_160_000_000_000;
     let has = |i: usize| mask & (1 << i) != 0;
     let mut l = simple_logical(carrier.clone(), t0);
@@ -361,8 +361,13 @@ fn build_defective(carrier: &Carrier, mask: u32, rng: &mut Rng) -> (Case, Option
         c.region = "eu-central-9".into();
     }
     if has(10) {
-        // four-part credential
-        let four = format!("{}/{}/{}/aws4_request", l.access_key, s.scope_date, l.region);
+        // credential with another number of parts: four, six, or a trailing slash
+        let four = match rng.below(4) {
+            0 => format!("{}/{}/{}/aws4_request", l.access_key, s.scope_date, l.region),
+            1 => format!("{}/extra", s.credential),
+            2 => format!("{}/", s.credential),
+            _ => format!("x/{}", s.credential),
+        };
         if is_hdr {
             set_auth(&mut c, &|a| a.replace(&s.credential, &four));
         } else {
@@ -419,6 +424,7 @@ fn build_defective(carrier: &Carrier, mask: u32, rng: &mut Rng) -> (Case, Option
     }
     // expected kind: lowest-numbered applicable defect
     let mut expect: Option<&'static str> = None;
+    let mut deciding: Option<usize> = None;
     for i in 0..14 {
         if !has(i) {
             continue;
@@ -436,9 +442,10 @@ fn build_defective(carrier: &Carrier, mask: u32, rng: &mut Rng) -> (Case, Option
         };
         // carrier-missing on the query carrier renames the algorithm parameter; later query defects then vanish
         expect = Some(k);
+        deciding = Some(i);
         break;
     }
-    (c, expect)
+    (c, expect, deciding)
 }
 
 pub fn c13(ctx: &mut Ctx) {
@@ -479,7 +486,7 @@ pub fn c13(ctx: &mut Ctx) {
     for carrier in [Carrier::Header, Carrier::Query] {
         let mut jobs = Vec::new();
         for &m in &masks {
-            let (c, expect) = build_defective(&carrier, m, &mut rng);
+            let (c, expect, deciding) = build_defective(&carrier, m, &mut rng);
             let names: Vec<&str> = (0..14).filter(|i| m & (1 << i) != 0).map(|i| DEFECTS[i].0).collect();
             let e = match expect {
                 None => Expect::Accept,
@@ -489,6 +496,7 @@ pub fn c13(ctx: &mut Ctx) {
                 ctx.rep.sample(format!("{:?} carrier, defects {:?} -> expected {:?}", carrier, names, expect));
             }
             let mut j = job(c, e, "c13-precedence", "C13: the error reported is not that of the earliest failing check in the documented order");
+            j.expect_calls = Some(match deciding { Some(i) if i < 12 => 0, _ => 1 });
             j.clause = format!("{} (injected: {:?})", j.clause, names);
             jobs.push(j);
             if jobs.len() > 4000 {
@@ -564,6 +572,25 @@ pub fn c14(ctx: &mut Ctx) {
         jobs.push(j);
         if jobs.len() > 4000 {
             run_jobs(ctx, "VALIDATE", std::mem::take(&mut jobs));
+        }
+    }
+    run_jobs(ctx, "VALIDATE", jobs);
+    // every kind of pre-provider defect (and pairs of them), both carriers: the provider must stay untouched
+    let mut jobs = Vec::new();
+    for carrier in [Carrier::Header, Carrier::Query] {
+        for i in 0..12 {
+            for j in i..12 {
+                for _ in 0..ctx.n(2, 10) {
+                    let m = (1u32 << i) | (1u32 << j);
+                    let (c, expect, deciding) = build_defective(&carrier, m, &mut rng);
+                    if expect.is_none() || deciding.map(|d| d >= 12).unwrap_or(true) {
+                        continue;
+                    }
+                    let mut jb = job(c, Expect::Refuse(expect), "c14-defective", "C14: a request failing a structural, signed-header, freshness or scope check reached the key provider");
+                    jb.expect_calls = Some(0);
+                    jobs.push(jb);
+                }
+            }
         }
     }
     run_jobs(ctx, "VALIDATE", jobs);
